@@ -17,14 +17,11 @@ Section FsMirrors.
       match l with
       | [] => (dups, acc, err)
       | child :: rest =>
-          match list_item_to_pe s t child with
-          | None => fs_pass1 rest seen dups acc true
-          | Some e =>
-              if pes_has e seen then
-                if pes_has e dups then fs_pass1 rest seen dups acc err
-                else fs_pass1 rest seen (pes_insert e dups) (acc ++ [prefix ++ [e]]) err
-              else fs_pass1 rest (pes_insert e seen) dups acc err
-          end
+          let e := list_item_pe_or_zero s t child in
+          if pes_has e seen then
+            if pes_has e dups then fs_pass1 rest seen dups acc err
+            else fs_pass1 rest seen (pes_insert e dups) (acc ++ [prefix ++ [e]]) err
+          else fs_pass1 rest (pes_insert e seen) dups acc err
       end.
 
     Section Pass2.
@@ -34,14 +31,11 @@ Section FsMirrors.
       | [] => (false, [])
       | child :: rest =>
           let '(e2, r) := fs_pass2 rest in
-          match list_item_to_pe s t child with
-          | None => (true, r)
-          | Some e =>
-              if pes_has e dups then (e2, r)
-              else
-                let '(e1, sub) := fs_paths s (list_elem t) (prefix ++ [e]) child in
-                (e1 || e2, sub ++ [prefix ++ [e]] ++ r)
-          end
+          let e := list_item_pe_or_zero s t child in
+          if pes_has e dups then (e2, r)
+          else
+            let '(e1, sub) := fs_paths s (list_elem t) (prefix ++ [e]) child in
+            (e1 || e2, sub ++ [prefix ++ [e]] ++ r)
       end.
     End Pass2.
   End ListLoops.
@@ -100,10 +94,8 @@ Proof. intros s tr prefix v. destruct v; reflexivity. Qed.
 Section RmMirrors.
   Variables (s : schema) (extract : bool) (toRemove : pset).
 
-  Definition rm_has (e : option pe) : bool :=
-    match e with Some e => ps_has [e] toRemove | None => false end.
-  Definition rm_subset (e : option pe) : pset :=
-    match e with Some e => ps_with_prefix e toRemove | None => ps_empty_set end.
+  Definition rm_has (e : pe) : bool := ps_has [e] toRemove.
+  Definition rm_subset (e : pe) : pset := ps_with_prefix e toRemove.
 
   Section ListLoop.
     Variable t : listT.
@@ -111,7 +103,7 @@ Section RmMirrors.
       match l with
       | [] => []
       | item :: rest =>
-          let e := list_item_to_pe s t item in
+          let e := list_item_pe_or_zero s t item in
           let has := rm_has e in
           let subset := rm_subset e in
           if has && negb extract then rm_list_go rest
